@@ -7,6 +7,7 @@ import (
 	"net/url"
 	"strings"
 	"testing"
+	"time"
 
 	"github.com/go-jose/go-jose/v3"
 	"github.com/ory/fosite"
@@ -223,6 +224,7 @@ func TestC10_ClientAuthentication(t *testing.T) {
 		}
 
 		// ---- the presentation under test
+		timeDefect := false
 		transport := rapid.SampledFrom([]string{"basic", "basic", "basic-raw", "body", "body", "both", "both-no-id", "neither", "id-only", "malformed-header", "assertion", "assertion-other-method"}).Draw(rt, "transport")
 		relation := rapid.SampledFrom([]string{"current", "current", "rotated", "wrong", "empty", "other-clients", "other-clients", "withdrawn", "hash-itself", "prefix-of-current", "current-plus-suffix"}).Draw(rt, "relation")
 		// history before the presentation under test: the other client may have authenticated successfully with
@@ -327,10 +329,30 @@ func TestC10_ClientAuthentication(t *testing.T) {
 				key, alg = h.RSAKey(2), "RS256"
 			}
 			form.Set("client_assertion_type", assertionType)
-			form.Set("client_assertion", h.MustSignJWT(key, alg, "kid-1", map[string]interface{}{
-				"iss": c.id, "sub": c.id, "aud": h.TokenURL, "jti": nextJTI(), "exp": h.Now().Add(300e9).Unix(), "iat": h.Now().Unix(),
-			}))
-			if c.key != nil && transport == "assertion" {
+			// the assertion itself may be stale, premature or meant for somebody else: then it proves nothing, at any endpoint
+			claims := map[string]interface{}{"iss": c.id, "sub": c.id, "aud": h.TokenURL, "jti": nextJTI(), "exp": h.Now().Add(300e9).Unix(), "iat": h.Now().Unix()}
+			defect := rapid.SampledFrom([]string{"", "", "", "expired", "not-yet-valid", "other-audience"}).Draw(rt, "assertionDefect")
+			switch defect {
+			case "expired":
+				claims["exp"] = h.Now().Add(-time.Duration(rapid.SampledFrom([]int{5, 90, 86400}).Draw(rt, "expiredFor")) * time.Second).Unix()
+				claims["iat"] = h.Now().Add(-2 * 86400 * time.Second).Unix()
+			case "not-yet-valid":
+				claims["nbf"] = h.Now().Add(600 * time.Second).Unix()
+			case "other-audience":
+				claims["aud"] = "https://other-as.example/token"
+			}
+			if defect != "" {
+				h.Label("assertion-defect=" + defect)
+			}
+			// stale / premature assertions are refused with the JWT library's own error value, not an RFC 6749 error: the
+			// statement's list of presentations answered invalid_client / invalid_request does not name them (C15 owns
+			// assertion validity), so only "not processed, nothing changed" is asserted for them
+			timeDefect = defect == "expired" || defect == "not-yet-valid"
+			if rapid.Bool().Draw(rt, "clientIDNextToAssertion") {
+				form.Set("client_id", c.id)
+			}
+			form.Set("client_assertion", h.MustSignJWT(key, alg, "kid-1", claims))
+			if c.key != nil && transport == "assertion" && defect == "" {
 				carried["assertion"] = "valid"
 				if extraKey {
 					h.Label("assertion-by-registered-key-for-non-jwt-method")
@@ -471,6 +493,9 @@ func TestC10_ClientAuthentication(t *testing.T) {
 		if proven {
 			h.Label("proven")
 		}
+		if timeDefect {
+			h.Label("stale-or-premature-assertion@" + endpoint)
+		}
 
 		if c.public {
 			// identified without a secret, but never client_credentials
@@ -489,13 +514,13 @@ func TestC10_ClientAuthentication(t *testing.T) {
 		if !proven {
 			if issued || errInfo.OK() {
 				h.Violate(rt, "C10/unproven-request-processed", "request processed in the name of a confidential client without proof of a valid secret / assertion through a permitted transport: %s", desc)
-			} else if authPassed {
+			} else if authPassed && !timeDefect {
 				h.Violate(rt, "C10/unproven-request-passed-authentication", "client authentication let an unproven request through (answered %v, not invalid_client / invalid_request): %s", errInfo, desc)
 			}
 			if len(writes) > 0 {
 				h.Violate(rt, "C10/unproven-request-changed-tokens", "rejected request modified code/token records %v: %s", writes, desc)
 			}
-			if endpoint == "par" && !errInfo.OK() && errInfo.Name != "invalid_client" {
+			if endpoint == "par" && !errInfo.OK() && errInfo.Name != "invalid_client" && !timeDefect {
 				h.Violate(rt, "C10/par-wrong-error-class", "PAR authentication failure answered %v, want invalid_client: %s", errInfo, desc)
 			}
 			// the target of a rejected revocation / refresh is untouched
